@@ -22,6 +22,11 @@ type yarnGen struct {
 	unit  string // one indentation level
 	nl    string
 	nodes int
+	// column of the previous content line (spaces only); a line closing deeper blocks may
+	// then sit strictly between its level and the next one (IndentLexer: every wider level
+	// is closed, none is opened)
+	prevCol int
+	ragged  bool
 }
 
 var (
@@ -101,8 +106,27 @@ func (g *yarnGen) lineTail() string {
 
 func (g *yarnGen) emit(level int, s string) {
 	g.sb.WriteString(strings.Repeat(g.unit, level))
+	if strings.HasPrefix(s, "//") {
+		g.sb.WriteString(s) // comment-only lines do not count
+		g.sb.WriteString(g.nl)
+		return
+	}
+	g.sb.WriteString(g.raggedPad(level))
 	g.sb.WriteString(s)
 	g.sb.WriteString(g.nl)
+}
+
+func (g *yarnGen) raggedPad(level int) string {
+	u := len(g.unit)
+	if g.unit == "\t" {
+		return ""
+	}
+	pad := 0
+	if g.ragged && u >= 2 && g.prevCol >= (level+1)*u && g.rnd.Intn(2) == 0 {
+		pad = 1 + g.rnd.Intn(u-1)
+	}
+	g.prevCol = level*u + pad
+	return strings.Repeat(" ", pad)
 }
 
 func (g *yarnGen) stmts(level, depth, n int) {
@@ -143,6 +167,13 @@ func (g *yarnGen) stmt(level, depth int) {
 		c := g.pick(lgCmds)
 		for k := g.rnd.Intn(3); k > 0; k-- {
 			c += " " + g.pick([]string{"npc", "3", "fast", "{" + g.expr(1) + "}", "true", "a_b"})
+		}
+		if g.rnd.Intn(3) == 0 {
+			// words that look like pieces of numbers, names and operators
+			for k := 1 + g.rnd.Intn(3); k > 0; k-- {
+				c += " " + g.pick([]string{"-", "--", "-5", "-x", "5.", ".5", "-.5", "1.2.3", "+", "+1", "1e5", "0x1F", "-{1 + 2}", "{$x}-", "a.b",
+					"5-", "_", "1_000", "é", "00", "-0", "..", "=", "==", "!", "*", "%", ",", "(", ")", "()", "\"q\"", "'", ":", "a:b", "@", "&", "|", "~", "?"})
+			}
 		}
 		// (a hashtag after a command is a syntax error in this grammar: the line break
 		// that follows it arrives on the default channel)
@@ -190,6 +221,7 @@ func genValidScript(rnd *rand.Rand) string {
 		g.unit = strings.Repeat(" ", 1+rnd.Intn(4))
 	}
 	g.nodes = 1 + rnd.Intn(4)
+	g.ragged = rnd.Intn(3) == 0
 	if rnd.Intn(10) == 0 {
 		g.sb.WriteString("#file_tag" + g.nl)
 	}
@@ -207,8 +239,12 @@ func genValidScript(rnd *rand.Rand) string {
 			g.sb.WriteString("position: 10,20" + g.nl + "empty:" + g.nl)
 		}
 		g.sb.WriteString("---" + g.nl)
+		g.prevCol = 0
 		g.emit(0, g.text())
 		g.stmts(0, 0, rnd.Intn(7))
+		if g.prevCol >= len(g.unit) {
+			g.sb.WriteString(g.raggedPad(0))
+		}
 		g.sb.WriteString("===")
 		if n < g.nodes-1 || rnd.Intn(4) > 0 {
 			g.sb.WriteString(g.nl)
